@@ -157,6 +157,11 @@ func (g *gen) leaf(typ string) (*Tree, int64) {
 				// strings that spell internal markers, keywords and sentinels
 				return cst([]string{"fi", "if", "DNE", "true", "and"}[g.r.Intn(5)]), 1
 			}
+			if g.r.Intn(7) == 0 {
+				// strings that print like values of another type, or like two strings (anything that keys on the
+				// printed form of an operand conflates them with those)
+				return cst([]string{"1", "3", "0", "true", "a a", "a b", "[1 2]"}[g.r.Intn(7)]), 1
+			}
 			return cst([]string{"a", "b", ""}[g.r.Intn(3)]), 1
 		}
 		return vr("s"), 1
@@ -309,7 +314,14 @@ func (g *gen) tree(typ string, d int) (*Tree, int64) {
 					n = 3
 				}
 				t := op(g.pick("eq", "=", "=="))
+				mixed := r.Intn(6) == 0 // scalars of different types are simply not equal
 				for i := 0; i < n; i++ {
+					if mixed {
+						ty = []string{"b", "i", "s"}[r.Intn(3)]
+						if ty == "s" && !g.c.Strings {
+							ty = "i"
+						}
+					}
 					t.Kids = append(t.Kids, sub(ty))
 				}
 				return t, 1
